@@ -484,13 +484,14 @@ def m_boundary(rng, data, fmt):
 
 def m_bytes(rng, data, fmt):
     b = bytearray(data)
+    hi = 256 if (fmt == "stl" or chance(rng, 0.25)) else 128      # text formats: mostly stay inside valid UTF-8
     for _ in range(rng.choice([1, 1, 2, 4, 8])):
         op = rng.randrange(4)
-        if op == 0 or not b: b.insert(rng.randrange(len(b) + 1), rng.randrange(256))
-        elif op == 1: b[rng.randrange(len(b))] = rng.randrange(256)
-        elif op == 2: b[rng.randrange(len(b))] ^= 1 << rng.randrange(8)
+        if op == 0 or not b: b.insert(rng.randrange(len(b) + 1), rng.randrange(hi))
+        elif op == 1: b[rng.randrange(len(b))] = rng.randrange(hi)
+        elif op == 2: b[rng.randrange(len(b))] ^= 1 << rng.randrange(8 if hi == 256 else 7)
         else:
-            i = rng.randrange(len(b)); b[i:i + rng.randrange(1, 5)] = rng.choice([b"", b"\x00", b"\xff\xfe", b"\n\n", b"<", b">", b"&", b"</b>", b"<rt>", b"-->", b"\t", b"\xc1"])
+            i = rng.randrange(len(b)); b[i:i + rng.randrange(1, 5)] = rng.choice([b"", b"\x00", b"\xff\xfe" if hi == 256 else b"\xc2\x85", b"\n\n", b"<", b">", b"&", b"</b>", b"<rt>", b"-->", b"\t", b"\xc1"])
     return bytes(b)
 
 def m_tags(rng, data, fmt):
@@ -591,7 +592,7 @@ MUTATORS_FOR = {"srt": ["truncate", "lines", "tokens", "boundary", "bytes", "tag
                 "vtt": ["truncate", "lines", "tokens", "boundary", "bytes", "tags", "tags"],
                 "scc": ["truncate", "lines", "tokens", "boundary", "bytes"],
                 "stl": ["truncate", "bytes", "stl-fields", "stl-fields", "stl-fields"],
-                "imsc": ["truncate", "tokens", "boundary", "bytes", "xml-attr", "xml-attr", "xml-tree", "xml-tree", "tags"]}
+                "imsc": ["truncate", "tokens", "boundary", "bytes", "xml-attr", "xml-attr", "xml-attr", "xml-attr", "xml-tree", "xml-tree", "xml-tree", "xml-tree", "tags"]}
 
 def mutate(rng, data, fmt):
     """one to three stacked mutations; returns (kinds, data)"""
@@ -627,7 +628,7 @@ def deep(rng, fmt, n):
     if fmt == "scc":
         # very long line / very many lines
         if chance(rng, 0.5): return ("Scenarist_SCC V1.0\n\n00:00:00:00\t9420 9420 " + "c1c1 " * n + "942f 942f\n").encode()
-        return ("Scenarist_SCC V1.0\n\n" + "".join("00:00:%02d:%02d\t9425 9425 94ad 94ad c1c1\n\n" % (i // 30 % 60, i % 30) for i in range(n))).encode()
+        return ("Scenarist_SCC V1.0\n\n" + "".join("00:00:%02d:%02d\t9425 9425 94ad 94ad c1c1\n\n" % (i // 30 % 60, i % 30) for i in range(min(n, 800)))).encode()
     # stl: a chain of n extension blocks, or n cumulative blocks
     g = stl_gsi(rng, dict(CPN=b"850", DFC=b"STL25.01", DSC=b"1", CCT=b"00", LC=b"09", TNB=b"%05d" % min(n, 99999), TNS=b"00001", MNC=b"40", MNR=b"23", TCP=b"00000000"))
     n = min(n, 600)
